@@ -121,6 +121,8 @@ pub struct Built {
 const CLAIMS: &[u8] = br#"{"iss":"did:example:issuer","data":"x y/z+1"}"#;
 /// unencoded (b64 = false) payloads travel as-is: no '.', nothing that JSON would have to escape
 const PLAIN: &[u8] = b"plain text payload $02 ~ (unencoded)";
+/// an unencoded payload that happens to be base64url text too (so that a neighbouring entry with b64=true decodes)
+const PLAIN_B64ISH: &[u8] = b"eyJpc3MiOiJkaWQ6ZXhhbXBsZTptYWxsb3J5In0";
 
 /// Builds the received bytes of a row.
 pub fn build(tok: &Value, k: &Keys) -> Built {
@@ -151,7 +153,9 @@ pub fn build(tok: &Value, k: &Keys) -> Built {
   let prot_seg = encode_b64(prot_json.as_bytes());
   // ---- payload as transported ----
   let b64 = s(&tok["b64"]) != "false";
-  let payload: Vec<u8> = if b64 { encode_b64(CLAIMS).into_bytes() } else { PLAIN.to_vec() };
+  let before = tok.get("before").and_then(|v| v.as_str()).unwrap_or("nothing");
+  let plain: &[u8] = if before == "entry_other_b64" { PLAIN_B64ISH } else { PLAIN };
+  let payload: Vec<u8> = if b64 { encode_b64(CLAIMS).into_bytes() } else { plain.to_vec() };
   // ---- signature ----
   let si = [prot_seg.as_bytes(), b".", &payload].concat();
   let sig: Vec<u8> = match s(&tok["sig"]) {
@@ -200,7 +204,21 @@ pub fn build(tok: &Value, k: &Keys) -> Built {
           top.insert(k2, v);
         }
       } else {
-        top.insert("signatures".into(), json!([Value::Object(sigobj)]));
+        let mut entries = Vec::new();
+        if before != "nothing" {
+          // a valid neighbouring entry, signed over the same payload member under its own protected header
+          let nb_b64 = if before == "entry_same_b64" { b64 } else { !b64 };
+          let nb_json = if nb_b64 {
+            format!("{{\"alg\":\"{alg}\",\"kid\":\"did:example:issuer#key-0\"}}")
+          } else {
+            format!("{{\"alg\":\"{alg}\",\"b64\":false,\"crit\":[\"b64\"],\"kid\":\"did:example:issuer#key-0\"}}")
+          };
+          let nb_seg = encode_b64(nb_json.as_bytes());
+          let nb_sig = k.sign(alg, &[nb_seg.as_bytes(), b".", &payload].concat());
+          entries.push(json!({"protected": nb_seg, "signature": encode_b64(&nb_sig)}));
+        }
+        entries.push(Value::Object(sigobj));
+        top.insert("signatures".into(), json!(entries));
       }
       serde_json::to_vec(&Value::Object(top)).unwrap()
     }
@@ -210,13 +228,25 @@ pub fn build(tok: &Value, k: &Keys) -> Built {
     detached: if b(&tok["detached"]) { Some(payload.clone()) } else { None },
     prot_seg,
     payload,
-    claims: if b64 { CLAIMS.to_vec() } else { PLAIN.to_vec() },
+    claims: if b64 { CLAIMS.to_vec() } else { plain.to_vec() },
     sig_seg,
   }
 }
 
 pub fn decode<'a>(ser: &str, token: &'a [u8], detached: Option<&'a [u8]>) -> Result<JwsValidationItem<'a>, String> {
+  decode_nth(ser, token, detached, 0)
+}
+
+/// `skip` = number of signature entries before the one under test (general serialization)
+pub fn decode_nth<'a>(ser: &str, token: &'a [u8], detached: Option<&'a [u8]>, skip: usize) -> Result<JwsValidationItem<'a>, String> {
   let d = Decoder::new();
+  if ser == "general" && skip > 0 {
+    let mut it = d.decode_general_serialization(token, detached).map_err(|e| e.to_string())?;
+    for _ in 0..skip {
+      let _ = it.next().ok_or("no signature entry")?;
+    }
+    return it.next().ok_or("no signature entry")?.map_err(|e| e.to_string());
+  }
   match ser {
     "compact" => d.decode_compact_serialization(token, detached).map_err(|e| e.to_string()),
     "flattened" => d.decode_flattened_serialization(token, detached).map_err(|e| e.to_string()),
@@ -245,7 +275,8 @@ fn run_row(case: &Value, k: &Keys) -> Vec<(String, Value, Value)> {
   let bt = build(tok, k);
   let ser = s(&tok["ser"]);
   let want_decoded = b(&case["decoded"]);
-  let item = decode(ser, &bt.token, bt.detached.as_deref());
+  let skip = if tok.get("before").and_then(|v| v.as_str()).unwrap_or("nothing") == "nothing" { 0 } else { 1 };
+  let item = decode_nth(ser, &bt.token, bt.detached.as_deref(), skip);
   match item {
     Err(e) => {
       if want_decoded {
@@ -311,12 +342,13 @@ fn bit_flips(case: &Value, k: &Keys, stride: usize, rep: &mut Report) {
   let token_text = String::from_utf8(bt.token.clone()).unwrap();
   let payload_text = String::from_utf8(bt.payload.clone()).unwrap();
   let in_token = s(&tok["attached"]) == "present";
+  let skip = if tok.get("before").and_then(|v| v.as_str()).unwrap_or("nothing") == "nothing" { 0 } else { 1 };
   let mut regions: Vec<(&str, String)> = vec![("protected", bt.prot_seg.clone()), ("signature", bt.sig_seg.clone())];
   if in_token {
     regions.push(("payload", payload_text.clone()));
   }
   let verifies = |token: &[u8], detached: Option<&[u8]>| -> bool {
-    match decode(ser, token, detached) {
+    match decode_nth(ser, token, detached, skip) {
       Err(_) => false,
       Ok(item) => {
         let r = match alg_of(s(&tok["alg"])) {
